@@ -244,6 +244,43 @@ def run(chk):
                 chk.fail("imported-raises", f"a consumer of the imported process tensor raises {ex!r}", info)
             chk.case(info, ("consumers", N, p.tin is not None, str(info["ranks"]), i))
 
+        # ---- name / description given to a file-backed process tensor AFTER its file was created (default 'write' mode, and
+        # 'overwrite'): what is imported later carries the names the object had when it was closed -------------------------------
+        for j, (mode_, via) in enumerate([("write", "FileProcessTensor"), ("overwrite", "FileProcessTensor"), ("write", "pt_tempo_compute")]):
+            fn_ = os.path.join(tmp, f"renamed_{j}.hdf5")
+            info = {"kind": "renamed-after-creation", "mode": mode_, "created_by": via}
+            chk.search_cases += 1
+            chk.count("renamed_after_creation")
+            chk.case(info, ("renamed", mode_, via))
+            try:
+                if via == "FileProcessTensor":
+                    fpt = ptm.FileProcessTensor(mode_, fn_, 2, dt=0.1, name="first name", description="first description")
+                    fpt.set_mpo_tensor(0, np.ones((1, 1, 4), dtype=complex))
+                    fpt.set_cap_tensor(0, np.ones(1, dtype=complex))
+                    fpt.set_cap_tensor(1, np.ones(1, dtype=complex))
+                else:
+                    corr_ = oqupy.PowerLawSD(alpha=0.1, zeta=1, cutoff=3.0, cutoff_type="exponential")
+                    fpt = quiet(oqupy.pt_tempo_compute, oqupy.Bath(0.5 * oqupy.operators.sigma("z"), corr_), 0.0, 0.2,
+                                parameters=oqupy.TempoParameters(dt=0.1, epsrel=1e-5, dkmax=2), process_tensor_file=fn_, progress_type="silent")
+                fpt.name = "renamed \u03c1"
+                fpt.description = "described after the computation\n"
+                live = (fpt.name, fpt.description)
+                fpt.close()
+                got_names = []
+                for kind in ("file", "simple"):
+                    with warnings.catch_warnings():
+                        warnings.simplefilter("ignore")
+                        back = ptm.import_process_tensor(fn_, kind)
+                    got_names.append((back.name, back.description))
+                    if kind == "file":
+                        back.close()
+            except Exception as ex:
+                chk.fail("imported-raises", f"renaming a file-backed process tensor ({via}, mode '{mode_}') raises {ex!r}", info)
+                continue
+            if live != ("renamed \u03c1", "described after the computation\n") or any(g_ != live for g_ in got_names):
+                chk.fail("roundtrip-differs", f"a file-backed process tensor ({via}, mode '{mode_}') renamed after its creation comes back as {got_names} "
+                         f"(the object said {live})", info)
+
         # ---- file-backed PT-TEMPO vs in-memory (same float operations) ----------
         sx_, sy_, sz_ = (oqupy.operators.sigma(a) for a in "xyz")
         for j in range(6 if thorough else 3):
